@@ -226,6 +226,34 @@ def run(rep: Report, tier: str) -> None:
     issues, _ = orderlint.lint_program(P)
     report_issues(rep, "R05.5", [i for i in issues if i.where == f.qualname])
     rep.analysed = {"grammar_arity": arity, "cfg_nodes": len(g.nodes)}
+    # ---- R05.6: set operators select whole datapoints and match on identifiers only ----
+    rep.rule("R05.6", "no whole-row SQL set operator in the identifier-matching branches; no aggregation that rebuilds a row from several datapoints")
+    for n in walk_no_nested(f.node):
+        if isinstance(n, ast.If) and isinstance(n.test, ast.Compare) and src(n.test.left) == "op" and len(n.test.comparators) == 1:
+            tok = src(n.test.comparators[0]).split(".")[-1]
+            if tok not in ("INTERSECT", "SETDIFF", "SYMDIFF"):
+                continue
+            rep.instance("R05.6", f"branch/{tok}/no-row-set-operator", nontrivial=True)
+            for c in ast.walk(ast.Module(body=n.body, type_ignores=[])):
+                if isinstance(c, ast.Call) and src(c.func) == "registry.sql" and c.args and src(c.args[0]) in ("op", f"tokens.{tok}"):
+                    rep.add(Finding("R05.6", f"R05.6/branch/{tok}/row-set-operator", f.module.rel, c.lineno, f.qualname,
+                                    f"the {tok.lower()} branch combines operands with the SQL set operator from the registry (`{src(c)[:60]}`), which compares whole rows by position; "
+                                    f"VTL matches datapoints on the identifiers only, so a key present in every operand with different measure values is lost"))
+    AGGS = {"ARG_MIN", "ARG_MAX", "MIN_BY", "MAX_BY", "FIRST", "LAST", "ANY_VALUE", "MIN", "MAX", "SUM", "AVG", "LIST", "STRING_AGG"}
+    nsk = 0
+    for sk in sqlx.iter_skeletons(P):
+        if sk.func is not f:
+            continue
+        nsk += 1
+        toks = sqlx.tokenize(sk.text)
+        for i_, t in enumerate(toks):
+            grp = t.up == "GROUP" and i_ + 1 < len(toks) and toks[i_ + 1].up == "BY"
+            agg = t.kind == "ident" and t.up in AGGS and i_ + 1 < len(toks) and toks[i_ + 1].text == "("
+            if grp or agg:
+                rep.add(Finding("R05.6", f"R05.6/aggregation/{t.up}", f.module.rel, sk.line, f.qualname,
+                                f"a set-operator query uses `{t.text}{'(' if agg else ' BY'}`: aggregating per column builds a row out of several datapoints (and aggregates skip NULLs), "
+                                f"whereas a set operator returns datapoints of its operands unchanged - e.g. union must return the FIRST operand's datapoint for a shared key, NULL measures included"))
+    rep.instance("R05.6", "no-aggregation-in-set-queries", nontrivial=True, sample={"sql_texts": nsk})
     rep.assumptions = ["operator arity as written in Vtl.g4", "UNION ALL matches columns by position (SQL)"]
 
 
